@@ -606,7 +606,7 @@ var opTable = []struct {
 	w    int
 }{
 	{"create", 24}, {"revoke-existing", 12}, {"revoke-unknown", 6}, {"revoke-admin", 3}, {"revoke-revoked", 5},
-	{"http-auth", 12}, {"ws-auth", 10}, {"restart", 4}, {"create-as-user", 2}, {"revoke-as-user", 3},
+	{"http-auth", 12}, {"ws-auth", 10}, {"restart", 4}, {"create-as-user", 2}, {"revoke-as-user", 3}, {"revoke-commit-fails", 3},
 }
 
 // lockEvery: one sequence in lockEvery additionally revokes one token while a reader holds a lock (a busy timeout each)
@@ -720,6 +720,27 @@ func (s *seq) run(rng *rand.Rand, n int) {
 			release()
 			s.r.Count("revokes_under_reader_lock", 1)
 			s.r.Count(fmt.Sprintf("revokes_under_reader_lock_status_%dxx", code/100), 1)
+		case "revoke-commit-fails":
+			// the DELETE statement goes through but the COMMIT is refused by SQLite (a deferred foreign-key reference to the
+			// token row, checked at commit time). Whatever the API answers must be truthful: 2xx => the token is revoked.
+			t, ti, ok := m.pick(rng, true)
+			if !ok {
+				continue
+			}
+			s.op(kind, "revoke #%d while the commit of the deletion is refused by the database", ti)
+			s.subj = t
+			if _, err := e.st.DB.Exec(`CREATE TABLE IF NOT EXISTS verif_tokref(token VARCHAR(255) REFERENCES tokens(token) DEFERRABLE INITIALLY DEFERRED)`); err != nil {
+				s.r.Count("commit_fault_not_installed", 1)
+				continue
+			}
+			if _, err := e.st.DB.Exec(`INSERT INTO verif_tokref VALUES (?)`, t); err != nil {
+				s.r.Count("commit_fault_not_installed", 1)
+				continue
+			}
+			code := s.revoke(t, rig.AdminToken)
+			_, _ = e.st.DB.Exec(`DELETE FROM verif_tokref`)
+			s.r.Count("revokes_with_refused_commit", 1)
+			s.r.Count(fmt.Sprintf("revokes_with_refused_commit_status_%dxx", code/100), 1)
 		case "revoke-revoked":
 			t, ti, ok := m.pick(rng, false)
 			if !ok {
@@ -837,7 +858,7 @@ func (s *seq) run(rng *rand.Rand, n int) {
 }
 
 func body(r *ev.Run) {
-	r.Rule("seeded operation sequences of length 20..200 over {create (admin), create with a user token, revoke existing / already revoked / never-issued (random, near-miss and SQL-wildcard values) / the admin token itself, revoke with a user token (incl. self-revocation), authenticate over TCP, websocket connect with valid / revoked / never-issued / empty / admin token, restart}; the set model follows the API's own answers (2xx create = issued, 2xx revoke = revoked). After EVERY operation every token ever issued, the admin token and the never-issued targets are authenticated on GET /api/v1/access (status, own value, isAdmin) and a rotating sample on GET /api/v1/chain/tip/longest; websocket handshakes are sampled. evaluations = sequences; distinct = distinct operation-kind strings; non-trivial = sequences with at least one create, one accepted revocation of an existing token and one restart or websocket probe.")
+	r.Rule("seeded operation sequences of length 20..200 over {create (admin), create with a user token, revoke existing / already revoked / never-issued (random, near-miss and SQL-wildcard values) / the admin token itself, revoke with a user token (incl. self-revocation), revoke while SQLite refuses the COMMIT of the deletion (deferred foreign-key reference) or while a second connection holds a read lock, authenticate over TCP, websocket connect with valid / revoked / never-issued / empty / admin token, restart}; the set model follows the API's own answers (2xx create = issued, 2xx revoke = revoked). After EVERY operation every token ever issued, the admin token and the never-issued targets are authenticated on GET /api/v1/access (status, own value, isAdmin) and a rotating sample on GET /api/v1/chain/tip/longest; websocket handshakes are sampled. evaluations = sequences; distinct = distinct operation-kind strings; non-trivial = sequences with at least one create, one accepted revocation of an existing token and one restart or websocket probe.")
 	r.Assume(
 		"authentication is enabled (use_auth=true); SQLite token repository only",
 		"restart = stop listeners, close the handle, database.Init on the same file, new services/engine/websocket node (no process kill: that is C05's business)",
@@ -848,6 +869,7 @@ func body(r *ev.Run) {
 	r.Require("tokens_created", 200)
 	r.Require("tokens_revoked", 80)
 	r.Require("op_restart", 20)
+	r.Require("revokes_with_refused_commit", 50)
 	r.Require("op_revoke-admin", 10)
 	r.Require("http_probes_revoked_token", 1000)
 	r.Require("ws_probes_valid", 20)
